@@ -3805,3 +3805,191 @@ func ruleDecodedMapFieldTested(r *Run) {
 	}
 	r.check(n >= 1, "labels:decoded-map-field-writes", fmt.Sprintf("%d", n), "none found: rule needs review", "-")
 }
+
+// ---------------------------------------------------------------------------------------------
+// R4.17 / R3.29 — the start-up load does not depend on the manager it is building
+
+func init() {
+	reg := func(id, prop string) {
+		register(ruleDef{ID: id, Prop: prop, Tier: "quick", Floor: 1,
+			Title: "the start-up load does not depend on the manager it is building: no function reached synchronously from repoManager.loadMetadata calls repoT.save, which answers an error until the package-level manager is set — that happens only after the load returned; the load persists through saveToStore(m.store).  (The deletions interrupted by a crash are resumed from the load: a resume that goes through save() fails at every start, and the half-deleted instance stays)",
+			Fn:    ruleLoadDoesNotUsePackageManager})
+	}
+	reg("R4.17", "C04")
+	reg("R3.29", "C03")
+}
+
+func ruleLoadDoesNotUsePackageManager(r *Run) {
+	w := r.W
+	root := w.method("datastore", "repoManager", "loadMetadata")
+	save := w.method("datastore", "repoT", "save")
+	if root == nil || save == nil {
+		r.undecided("datastore.loadMetadata/repoT.save", "anchors not found")
+		return
+	}
+	type item struct {
+		f    *ssa.Function
+		path []string
+	}
+	seen := map[*ssa.Function]bool{root: true}
+	queue := []item{{root, []string{root.Name()}}}
+	n := 0
+	var bad []string
+	for len(queue) > 0 {
+		it := queue[0]
+		queue = queue[1:]
+		n++
+		if len(it.path) > 8 {
+			continue
+		}
+		for _, c := range calls(it.f) {
+			if _, isGo := c.(*ssa.Go); isGo {
+				continue
+			}
+			var callees []*ssa.Function
+			if sc := staticCallee(c); sc != nil {
+				callees = append(callees, sc)
+			}
+			for _, callee := range callees {
+				if callee == save {
+					bad = append(bad, strings.Join(append(it.path, "save"), " → ")+" at "+w.pos(c.Pos()))
+					continue
+				}
+				if seen[callee] || !inRepo(callee) || relPkg(pkgPathOf(callee)) != "datastore" || len(callee.Blocks) == 0 {
+					continue
+				}
+				seen[callee] = true
+				queue = append(queue, item{callee, append(append([]string{}, it.path...), callee.Name())})
+			}
+		}
+	}
+	for i, b := range bad {
+		r.violation(fmt.Sprintf("loadMetadata:reaches-repoT.save#%d", i+1), "the start-up load reaches repoT.save ("+b+"): the package-level manager is not set yet, save answers 'cannot use repo.save() before manager is initialized', and what the load wanted to persist or resume — the deletion of an instance interrupted by a crash — fails at every start", "-")
+	}
+	r.check(n >= 5, "loadMetadata:functions-reached", fmt.Sprintf("%d datastore functions reached synchronously from the load, %d paths to repoT.save", n, len(bad)), "too few: rule needs review", w.fpos(root))
+}
+
+// ---------------------------------------------------------------------------------------------
+// R12.21 / R20.57 — a label counter is not incremented past the end of the label space
+
+func init() {
+	reg := func(id, prop string) {
+		register(ruleDef{ID: id, Prop: prop, Tier: "quick", Floor: 2,
+			Title: "a label counter does not wrap: in labelmap every store that advances NextLabel or MaxRepoLabel by a value added to the loaded counter is dominated by a test that involves the largest 64-bit value and can leave with an error (newLabels refuses a request that would wrap; newLabel, used by cleave and split, must as well — after POST maxlabel/18446744073709551615 the next cleave would otherwise create body 0, the background)",
+			Fn:    ruleLabelCounterDoesNotWrap})
+	}
+	reg("R12.21", "C12")
+	reg("R20.57", "C20")
+}
+
+func ruleLabelCounterDoesNotWrap(r *Run) {
+	w := r.W
+	n := 0
+	for _, f := range w.RepoFuncs {
+		if relPkg(pkgPathOf(f)) != "datatype/labelmap" || len(f.Blocks) == 0 || isTestFunc(w, f) {
+			continue
+		}
+		k := 0
+		for _, field := range []string{"NextLabel", "MaxRepoLabel"} {
+			for _, st := range fieldStores(f, "Data", field) {
+				bo, ok := st.Val.(*ssa.BinOp)
+				if !ok || bo.Op != token.ADD {
+					continue
+				}
+				if !(isFieldLoad(bo.X, "Data", field) || isFieldLoad(bo.Y, "Data", field)) {
+					continue
+				}
+				n++
+				k++
+				guarded := false
+				for _, b2 := range f.Blocks {
+					ifi, isIf := b2.Instrs[len(b2.Instrs)-1].(*ssa.If)
+					if !isIf || !b2.Dominates(st.Block()) || b2 == st.Block() {
+						continue
+					}
+					usesMax := false
+					for d := range dataDeps(ifi.Cond) {
+						if c, ok := d.(*ssa.Const); ok && c.Value != nil && c.Value.Kind() == constant.Int {
+							if u, exact := constant.Uint64Val(c.Value); exact && u == ^uint64(0) {
+								usesMax = true
+							}
+						}
+					}
+					if !usesMax {
+						continue
+					}
+					for _, succ := range b2.Succs {
+						for _, x := range succ.Instrs {
+							if ret, isRet := x.(*ssa.Return); isRet && isErrorExit(ret) {
+								guarded = true
+							}
+						}
+					}
+				}
+				r.check(guarded, fmt.Sprintf("%s:%s-advance#%d:end-of-label-space-tested", fname(f), field, k), "a test against the largest 64-bit label, with an error exit, dominates the advance",
+					"the counter "+field+" is advanced with no test against the end of the 64-bit label space: at the maximum it wraps to 0, and the next label handed out is the background label (a cleave then maps a supervoxel to body 0)", w.pos(st.Pos()))
+			}
+		}
+	}
+	r.check(n >= 2, "labelmap:counter-advances", fmt.Sprintf("%d", n), "fewer than expected: rule needs review", "-")
+}
+
+// ---------------------------------------------------------------------------------------------
+// R15.8 — bounds on decoded sizes are computed in 64 bits
+
+func init() {
+	register(ruleDef{ID: "R15.8", Prop: "C15", Tier: "quick", Floor: 1,
+		Title: "bounds on decoded sizes are computed in 64 bits: in the dvid package's deserializer no multiplication whose operand is a buffer length converted to a 32-bit integer feeds a comparison (255 × len wraps above 16.8 MB in uint32, and a valid large value is rejected as implausible)",
+		Fn:    ruleSizeBoundsIn64Bits})
+}
+
+func ruleSizeBoundsIn64Bits(r *Run) {
+	w := r.W
+	n := 0
+	for _, f := range w.RepoFuncs {
+		if relPkg(pkgPathOf(f)) != "dvid" || len(f.Blocks) == 0 || isTestFunc(w, f) || !strings.Contains(w.fposFile(f), "serialize") {
+			continue
+		}
+		k := 0
+		for _, b := range f.Blocks {
+			for _, in := range b.Instrs {
+				bo, ok := in.(*ssa.BinOp)
+				if !ok || bo.Op != token.MUL {
+					continue
+				}
+				fromLen := false
+				for _, o := range []ssa.Value{bo.X, bo.Y} {
+					if cv, ok := o.(*ssa.Convert); ok && lenOf(cv.X) != nil {
+						fromLen = true
+					}
+					if lenOf(o) != nil {
+						fromLen = true
+					}
+				}
+				if !fromLen {
+					continue
+				}
+				// feeds a comparison?
+				cmp := false
+				for _, ref := range *bo.Referrers() {
+					if b2, ok := ref.(*ssa.BinOp); ok {
+						switch b2.Op {
+						case token.LSS, token.LEQ, token.GTR, token.GEQ:
+							cmp = true
+						}
+					}
+				}
+				if !cmp {
+					continue
+				}
+				n++
+				k++
+				bt, _ := bo.Type().Underlying().(*types.Basic)
+				wide := bt != nil && (bt.Kind() == types.Int64 || bt.Kind() == types.Uint64 || bt.Kind() == types.Int || bt.Kind() == types.Uint)
+				r.check(wide, fmt.Sprintf("%s:length-product#%d:64-bit", fname(f), k), "the product is computed in a 64-bit type",
+					"a buffer length is multiplied in "+bo.Type().String()+": for buffers above 2^32/255 bytes the product wraps and the plausibility test rejects a valid value", w.pos(bo.Pos()))
+			}
+		}
+	}
+	r.check(n >= 1, "dvid:length-products-in-comparisons", fmt.Sprintf("%d", n), "none found: rule needs review", "-")
+}
